@@ -788,32 +788,208 @@ def _is_oserror_class(ck, name) -> bool:
     return False
 
 
+BACKEND_ROOT = "storage.StorageBackend"
+
+
+def _callees(ck, fa, call):
+    for (c, cands, _how) in ck.cg.edges.get(fa.qual, []):
+        if c is call:
+            return cands
+    return []
+
+
+def is_backend_write(ck, fa, c):
+    """Is `c` the call that hands a result to the storage backend: `<backend>.memoize(...)`, the receiver being the
+    backend by type (a parameter / field / attribute of a per-call object that the call graph types as a
+    StorageBackend) or, failing a type, the runner's `storage_backend` parameter through local aliases."""
+    if A.call_attr(c) != "memoize" or A.call_recv(c) is None or not fa.nodes(c):
+        return False
+    base = ck.repo.cls(BACKEND_ROOT)
+    backends = {k.qual for k in ck.repo.subclasses(base, strict=False)}
+    if any(h.cls is not None and h.cls.qual in backends for h in _callees(ck, fa, c)):
+        return True
+    return fa.xnorm(A.call_recv(c), fa.nodes(c)[0]) == "storage_backend"
+
+
+def same_module_reach(ck, root, stop=()):
+    """The function and the functions of its module that it reaches through resolved calls (helpers, methods of
+    per-call objects, nested closures), in breadth-first order, as FA bundles."""
+    fas = {root.qual: root}
+    order = [root]
+    i = 0
+    while i < len(order) and len(order) < 60:
+        f = order[i]
+        i += 1
+        for (_call, cands, _how) in ck.cg.edges.get(f.qual, []):
+            for h in cands:
+                if h.module is root.fi.module and h.qual not in fas and h.qual not in stop:
+                    fas[h.qual] = FA(ck, h)
+                    order.append(fas[h.qual])
+    return order
+
+
+def write_attempt_walk(ck):
+    """Where the local runner offers a computed result to the store, wherever a restructuring put it: in
+    memento_run_local itself or in a function of the same module that it reaches (a helper the front end could not
+    fold back, a method of a per-call object, a nested closure / generator).
+    -> (host FA, {qual: FA}, {qual: [write calls]}, {qual: [write calls + calls that lead to one]})"""
+    host = FA(ck, "runner_local.memento_run_local")
+    order = same_module_reach(ck, host)
+    fas = {f.qual: f for f in order}
+    sites = {}
+    for f in order:
+        cs = [c for c in f.calls("memoize") if is_backend_write(ck, f, c)]
+        if cs:
+            sites[f.qual] = cs
+    targets = {q: list(cs) for (q, cs) in sites.items()}
+    changed = True
+    while changed:
+        changed = False
+        for f in order:
+            for (call, cands, _how) in ck.cg.edges.get(f.qual, []):
+                if any(h.qual in targets and h.qual != f.qual for h in cands) and f.nodes(call) and not any(call is t for t in targets.get(f.qual, [])):
+                    targets.setdefault(f.qual, []).append(call)
+                    changed = True
+    return host, fas, sites, targets
+
+
+def _suppressed(fa, site):
+    """Is `site` in the body of `with contextlib.suppress(<types covering OSError>)`?"""
+    for w in _with_ancestors(fa, site):
+        for it in w.items:
+            e = it.context_expr
+            if isinstance(e, ast.Call) and A.call_attr(e) == "suppress" and any(A.norm(t).split(".")[-1] in OSERROR_NAMES - {"Exception", "BaseException"} for t in e.args):
+                return True
+    return False
+
+
+def _swallowing_manager(ck, fa, site):
+    """The `with` spelling of "except IOError": `site` stands in the body of a `with` whose context manager is an
+    instance of a class of the module, and that class's __exit__, given an OSError, answers truthy on every path (the
+    error is swallowed and control continues after the `with`).
+    -> (with statement, manager expression text, {field: constant __exit__ leaves in it on those paths}, FA of __exit__) or None."""
+    for w in _with_ancestors(fa, site):
+        for it in w.items:
+            mgr = it.context_expr
+            ctor = mgr
+            if isinstance(mgr, ast.Name) and fa.nodes(w):
+                ds = fa.df.reaching(fa.nodes(w)[0], mgr.id)
+                if len(ds) != 1 or ds[0].kind != "assign" or ds[0].value is None:
+                    continue
+                ctor = ds[0].value
+            if not (isinstance(ctor, ast.Call) and isinstance(ctor.func, ast.Name)):
+                continue
+            cls = fa.fi.module.classes.get(ctor.func.id)
+            ex = cls.methods.get("__exit__") if cls is not None else None
+            if ex is None or len(ex.params) < 3:
+                continue
+            fx = FA(ck, ex)
+            me, etype, evalue = ex.params[0], ex.params[1], ex.params[2]
+
+            def atom(e, etype=etype, evalue=evalue):
+                if isinstance(e, ast.Name) and e.id in (etype, evalue):
+                    return True
+                if isinstance(e, ast.Compare) and len(e.ops) == 1 and isinstance(e.ops[0], ast.Is) and isinstance(e.left, ast.Name) \
+                        and e.left.id in (etype, evalue) and A.is_none(e.comparators[0]):
+                    return False
+                if isinstance(e, ast.Call) and A.call_attr(e) in ("isinstance", "issubclass") and len(e.args) == 2 \
+                        and isinstance(e.args[0], ast.Name) and e.args[0].id in (etype, evalue):
+                    ts = e.args[1].elts if isinstance(e.args[1], ast.Tuple) else [e.args[1]]
+                    return True if any(A.norm(t).split(".")[-1] in OSERROR_NAMES for t in ts) else None
+                return None
+            asm = Assume(fx, atom)
+            live = asm.reach()
+            # fields the error path leaves set to a constant: assigned on every path to the exit, and only to that
+            fields = {}
+            for st in fx.stmts(ast.Assign):
+                for t in st.targets:
+                    if isinstance(t, ast.Attribute) and isinstance(t.value, ast.Name) and t.value.id == me and isinstance(st.value, ast.Constant):
+                        ids = [i for i in fx.nodes(st) if i in live]
+                        if ids and fx.cfg.exit not in fx.cfg.reach([fx.cfg.entry], removed=ids, edge_ok=asm.edge_ok):
+                            fields.setdefault(t.attr, set()).add(st.value.value)
+            fields = {f: vs.pop() for (f, vs) in fields.items() if len(vs) == 1}
+
+            def truthy(e, n):
+                if isinstance(e, ast.Attribute) and isinstance(e.value, ast.Name) and e.value.id == me and e.attr in fields:
+                    return bool(fields[e.attr])
+                return asm.truth(e, n)
+            rets = [(r, i) for r in fx.returns() for i in fx.nodes(r) if i in live]
+            if not rets or fx.cfg.exit in fx.cfg.reach([fx.cfg.entry], removed=[i for (_r, i) in rets], edge_ok=asm.edge_ok):
+                continue               # can fall off the end (answers None: the error propagates)
+            if all(r.value is not None and all(truthy(e, n) is True for (e, n) in asm.cases(r.value, i)) for (r, i) in rets):
+                name = mgr.id if isinstance(mgr, ast.Name) else (it.optional_vars.id if isinstance(it.optional_vars, ast.Name) else None)
+                return w, (name, cls.name), fields, fx
+    return None
+
+
+def _invalid_after_swallow(fa, w, mgr, fields):
+    """After the `with` statement `w` has swallowed an error, every answer of the function is "not valid": each return that
+    control can reach from the `with` and that lies outside it carries valid_result False once the manager's fields
+    hold what its __exit__ left in them."""
+    def atom(e):
+        if isinstance(e, ast.Attribute) and e.attr in fields and (
+                (isinstance(e.value, ast.Name) and e.value.id == mgr[0]) or
+                (isinstance(e.value, ast.Call) and isinstance(e.value.func, ast.Name) and e.value.func.id == mgr[1])):
+            return bool(fields[e.attr])
+        return None
+    asm = Assume(fa, atom)
+    after = fa.cfg.reach(fa.nodes(w))
+    rets = [(r, i) for r in fa.returns() if not fa.inside(r, w) for i in fa.nodes(r) if i in after]
+    if not rets:
+        return False
+    for (r, i) in rets:
+        if r.value is None:
+            return False
+        for (leaf, n) in asm.cases(r.value, i, fa.df.IN):
+            if not (isinstance(leaf, ast.Call) and A.call_attr(leaf) == "ExistingMementoResult"):
+                return False
+            v = A.kwarg(leaf, "valid_result") or (leaf.args[1] if len(leaf.args) >= 2 else None)
+            if v is None or asm.truth(v, n) is not False:
+                return False
+    return True
+
+
+def _guarding_wrapper(ck, fi):
+    """(FA of the wrapper, the wrapper's call of the wrapped function) when `fi` is defined under a decorator of its
+    own module that replaces it by a nested function calling it (`def deco(step): def guarded(*a): ... step(*a) ...;
+    return guarded`): whatever surrounds that call in the wrapper surrounds every statement of `fi`."""
+    for d in fi.node.decorator_list:
+        dn = d.func if isinstance(d, ast.Call) else d
+        if not isinstance(dn, ast.Name):
+            continue
+        deco = fi.module.functions.get(dn.id)
+        if deco is None or not deco.params or isinstance(d, ast.Call):
+            continue
+        wrapped = deco.params[0]
+        for w in deco.nested.values():
+            # the decorator hands back the nested function (directly or through functools.wraps(...)(w) / a temporary)
+            returned = any(isinstance(r, ast.Return) and r.value is not None and any(isinstance(x, ast.Name) and x.id == w.name for x in ast.walk(r.value))
+                           for r in A.walk_body(deco.node))
+            if not returned:
+                continue
+            fw = FA(ck, w)
+            calls = [c for c in fw.calls() if isinstance(c.func, ast.Name) and c.func.id == wrapped and fw.nodes(c)]
+            if calls:
+                return fw, calls[0]
+    return None
+
+
 def check_recovery(ck):
     R = "C08.R3"
     ck.rule(R, "absorb and recover: I/O errors are absorbed around memoize in the local runner, around the read in "
                "process_existing_memento (=> not valid => recompute) and around the memento read in get_mementos "
                "(=> None); the partition-merge failure is an OSError", 4)
-    rl0 = FA(ck, "runner_local.memento_run_local")
-    sites = [(rl0, c) for c in rl0.calls("memoize") if rl0.nodes(c) and rl0.xnorm(A.call_recv(c), rl0.nodes(c)[0]) == "storage_backend"]
-    if not sites:
-        # the write was moved into a helper that the front end could not fold back (e.g. it returns from inside
-        # the try): the clause is decided inside that helper, on the parameter that receives the backend
-        for (call, cands, how) in ck.cg.edges.get(rl0.qual, []):
-            for h in cands:
-                if h.module is not rl0.fi.module or h.cls is not None:
-                    continue
-                fh = FA(ck, h)
-                for c in fh.calls("memoize"):
-                    rv = A.call_recv(c)
-                    if isinstance(rv, ast.Name) and rv.id in h.params:
-                        passed = A.arg_or_kw(call, h.params.index(rv.id), rv.id)
-                        if passed is not None and rl0.nodes(call) and rl0.xnorm(passed, rl0.nodes(call)[0]) == "storage_backend":
-                            sites.append((fh, c))
+    rl0, _fas, per_fn, _targets = write_attempt_walk(ck)
+    sites = [(_fas[q], c) for q in per_fn for c in per_fn[q]]
     ck.need(sites, "runner_local.memento_run_local: expected storage_backend.memoize call, found none")
     for (rl, c) in sites:
         trys = _try_around(rl, c)
         hs = [h for t in trys for h in t.handlers if _handler_covers_oserror(h) and A.norm(h.type) not in ("Exception", "BaseException")]
         ok = bool(hs) and all(not any(isinstance(n, ast.Raise) for n in A.walk_local(h)) for h in hs[:1])
+        if not hs and (_suppressed(rl, c) or _swallowing_manager(ck, rl, c) is not None):
+            # the `with` spelling of the handler: contextlib.suppress(IOError) / a manager of the module whose __exit__
+            # swallows an OSError — control continues after the `with`
+            ok = True
         ck.ob(R, rl.key(c, "absorb-write-error"), ok, "an I/O error while memoizing is logged and swallowed; the computed result is still returned" if ok else
               "an I/O error raised by memoize escapes (or is re-raised): the caller gets an exception instead of the computed value", rl.where(c))
         if hs:
@@ -824,19 +1000,39 @@ def check_recovery(ck):
             ck.ob(R, rl.key(c, "continues"), okc, "execution continues to the return after a failed write" if okc else
                   "after a failed write the function does not reach its return", rl.where(c))
     pe = FA(ck, "runner.process_existing_memento")
-    rr = pe.some([c for c in pe.calls("read_result")], "read_result call")
-    for c in rr:
-        trys = _try_around(pe, c)
+    rr = [(pe, c) for c in pe.calls("read_result")]
+    if not rr:
+        # the read was moved into a function of the module that is reached through something the call graph does not
+        # follow (a dispatch table, a decorated step): every read of a stored result in the module is held to the clause
+        for q in sorted(ck.cg.funcs):
+            fi = ck.cg.funcs[q]
+            if fi.module is pe.fi.module and fi.qual != pe.qual and any(A.call_attr(x) == "read_result" for x in A.body_calls(fi.node)):
+                fh = FA(ck, fi)
+                rr += [(fh, c) for c in fh.calls("read_result")]
+    ck.need(rr, "runner.process_existing_memento: expected read_result call, found none")
+    for (fr, c) in rr:
+        g, gc = fr, c
+        if not [h for t in _try_around(fr, c) for h in t.handlers if _handler_covers_oserror(h)]:
+            # not guarded where it stands: guarded by a decorator of the function it stands in?
+            w = _guarding_wrapper(ck, fr.fi)
+            if w is not None:
+                g, gc = w
+        trys = _try_around(g, gc)
         hs = [h for t in trys for h in t.handlers if _handler_covers_oserror(h)]
         ok = False
         if hs:
             # whatever the function returns on a path through the handler is "not valid" (early return in the
             # handler or a result variable returned after the try), and nothing is re-raised
-            vals, raises = _after_handler(pe, hs[0])
-            ok = bool(vals) and not raises and all(_valid_flag_is(pe, e, n, False, IN) for (e, n, IN) in vals)
-            _handler_cannot_fail(ck, R, pe, hs[0], c, "while reading a memoized result")
-        ck.ob(R, pe.key(c, "read-error-means-invalid"), ok, "an I/O error while reading means 'not valid' (the caller recomputes)" if ok else
-              "an I/O error while reading a memoized result is not turned into valid_result=False", pe.where(c))
+            vals, raises = _after_handler(g, hs[0])
+            ok = bool(vals) and not raises and all(_valid_flag_is(g, e, n, False, IN) for (e, n, IN) in vals)
+            _handler_cannot_fail(ck, R, g, hs[0], gc, "while reading a memoized result")
+        else:
+            # a context manager of the module whose __exit__ swallows the error: control continues after the `with`
+            sw = _swallowing_manager(ck, g, gc)
+            if sw is not None:
+                ok = _invalid_after_swallow(g, sw[0], sw[1], sw[2])
+        ck.ob(R, fr.key(c, "read-error-means-invalid"), ok, "an I/O error while reading means 'not valid' (the caller recomputes)" if ok else
+              "an I/O error while reading a memoized result is not turned into valid_result=False", fr.where(c))
     gm = FA(ck, "storage_base.DataSourceMetadataSource.get_mementos")
     rm = [c for c in gm.calls("_read_memento")]
     if not rm:
@@ -885,13 +1081,223 @@ def check_recovery(ck):
                 ck.ob(R, ps.key(r, "io-signal"), ok, "merge failure is signalled as an I/O error (absorbed by the runner)" if ok else
                       "merge failure is signalled as %s, which the runner does not absorb" % nm, ps.where(r))
     # the runner's second use of process_existing_memento treats 'not valid' as 'compute'
-    for qual in ("runner_local.memento_run_local", "runner_local.LocalRunnerBackend.batch_run"):
+    anchors = ("runner_local.memento_run_local", "runner_local.LocalRunnerBackend.batch_run")
+    for qual in anchors:
         f = FA(ck, qual)
-        pcs = f.some(f.calls("process_existing_memento"), "process_existing_memento call")
-        tests = [n for n in f.cfg.nodes if n.kind == "test" and n.id in f.cfg.reachable_nodes()
-                 and any(_is_valid_flag(f, x, n.id) for x in ast.walk(n.ast))]
+        group = [f]
+        if not f.calls("process_existing_memento"):
+            # the replay step was moved into a function of the module that the front end could not fold back
+            # (a nested generator, a method of a per-call object): the flag is looked for where the call went
+            group = [g for g in same_module_reach(ck, f, stop=[a for a in anchors if a != qual]) if g.calls("process_existing_memento")]
+        ck.need(group, "%s: expected process_existing_memento call, found none" % qual)
+        tests = [n for g in group for n in g.cfg.nodes if n.kind == "test" and n.id in g.cfg.reachable_nodes()
+                 and any(_is_valid_flag(g, x, n.id) for x in ast.walk(n.ast))]
         ck.ob(R, f.key(None, "valid-flag-tested"), bool(tests), "the valid flag decides between serve and compute" if tests else
               "%s does not branch on valid_result" % qual, f.where())
+
+
+# What the store itself says about a call: the only things that may decide that a computed result is NOT written.
+STORE_ANSWERS = ("is_memoized", "is_all_memoized", "get_memento", "get_mementos", "process_existing_memento", "all_mementos_exist",
+                 "read_result", "read_metadata")
+
+
+def _atoms_of(test):
+    """The atomic conditions of a branch test (operands of and / or / not, recursively)."""
+    if isinstance(test, ast.BoolOp):
+        return [a for v in test.values for a in _atoms_of(v)]
+    if isinstance(test, ast.UnaryOp) and isinstance(test.op, ast.Not):
+        return _atoms_of(test.operand)
+    return [test]
+
+
+CONTAINER_MAKERS = ("set", "dict", "list", "defaultdict", "OrderedDict", "deque", "Counter", "WeakValueDictionary", "WeakKeyDictionary", "WeakSet",
+                    "bytearray", "ChainMap", "local")
+MUTATING_METHODS = ("add", "append", "update", "extend", "insert", "setdefault", "appendleft", "pop", "popitem", "clear", "remove", "discard",
+                    "__setitem__", "__delitem__", "put", "push")
+
+
+def _process_state(fa, name):
+    """Is the non-local name `name` state of the process that outlives a call and can change: a module-level
+    container of the function's module (a set / dict / list ... literal or constructor), a module-level object
+    that some code of the module mutates (mutator method, item store / delete, augmented assignment), or a
+    module-level name that a function rebinds through `global`?  Constants, tuples of constants, aliases of named
+    constants and identity sentinels (`object()`) are not."""
+    from ..inline import _immutable_default
+    m = fa.fi.module
+    if name not in m.assigns:
+        return False
+    v = m.assigns[name]
+    if _immutable_default(v):
+        return False
+    if isinstance(v, (ast.Set, ast.Dict, ast.List, ast.ListComp, ast.SetComp, ast.DictComp)):
+        return True
+    if isinstance(v, ast.Call) and A.call_attr(v) in CONTAINER_MAKERS:
+        return True
+    for n in ast.walk(m.tree):
+        if isinstance(n, ast.Global) and name in n.names:
+            return True
+        if isinstance(n, ast.Call) and isinstance(n.func, ast.Attribute) and n.func.attr in MUTATING_METHODS \
+                and isinstance(n.func.value, ast.Name) and n.func.value.id == name:
+            return True
+        if isinstance(n, ast.Subscript) and isinstance(n.ctx, (ast.Store, ast.Del)) and isinstance(n.value, ast.Name) and n.value.id == name:
+            return True
+        if isinstance(n, ast.Attribute) and isinstance(n.ctx, (ast.Store, ast.Del)) and isinstance(n.value, ast.Name) and n.value.id == name:
+            return True
+    return False
+
+
+def _branch_tests_of(fa, node_ids):
+    """Branch tests that decide whether one of the CFG nodes is reached: one branch can reach it, the other cannot."""
+    cfg = fa.cfg
+    want = set(node_ids)
+    out = []
+    live = cfg.reachable_nodes()
+    for n in cfg.nodes:
+        if n.kind != "test" or n.id not in live or n.ast is None or n.id in want:
+            continue
+        br = {}
+        for (d, l) in cfg.succ[n.id]:
+            if l in ("T", "F"):
+                br.setdefault(l, []).append(d)
+        if set(br) != {"T", "F"}:
+            continue
+        a, b = bool(cfg.reach(br["T"]) & want), bool(cfg.reach(br["F"]) & want)
+        if a != b:
+            out.append(n)
+    return out
+
+
+def _guard_deps(ck, fa, expr, at, depth=2, _seen=None):
+    """What the value of a guard depends on: the dependency atoms of the expression; for a local that is given
+    its value in several places (a verdict flag: `ok = False` here, `ok = not q()` there) also what the branch
+    tests that choose between those places depend on; and — for a call of a function of the same module — what
+    everything that function can return depends on."""
+    seen = _seen if _seen is not None else set()
+    try:
+        out = set(fa.df.deps(expr, at))
+    except Exception:  # noqa - an expression the dependency closure cannot place
+        return {"unknown:"}
+    # control dependence of multiply-defined locals
+    todo = [(x.id, at) for x in ast.walk(expr) if isinstance(x, ast.Name) and isinstance(x.ctx, ast.Load)]
+    done = set()
+    while todo and len(done) < 40:
+        name, n = todo.pop()
+        if (name, n) in done or not fa.df.is_local(name):
+            continue
+        done.add((name, n))
+        ds = [d for d in fa.df.reaching(n, name) if d.kind != "param"]
+        for d in ds:
+            if d.value is not None and d.kind in ("assign", "aug", "unpack"):
+                todo += [(x.id, d.node) for x in ast.walk(d.value) if isinstance(x, ast.Name) and isinstance(x.ctx, ast.Load)]
+        if len(ds) < 2:
+            continue
+        for d in ds:
+            for t in _branch_tests_of(fa, [d.node]):
+                key = ("ctl", t.id)
+                if key in seen:
+                    continue
+                seen.add(key)
+                out |= _guard_deps(ck, fa, t.ast, t.id, depth, seen)
+    if depth <= 0:
+        return out
+    names = {a[5:] for a in out if a.startswith("call:")}
+    for (_call, cands, _how) in ck.cg.edges.get(fa.qual, []):
+        for h in cands:
+            if h.name in names and h.module is fa.fi.module and h.qual not in seen and h.qual != fa.qual:
+                seen.add(h.qual)
+                fh = FA(ck, h)
+                for r in fh.returns():
+                    if r.value is not None:
+                        for i in fh.nodes(r)[:1]:
+                            out |= _guard_deps(ck, fh, r.value, i, depth - 1, seen)
+                            for t in _branch_tests_of(fh, [i]):
+                                out |= _guard_deps(ck, fh, t.ast, t.id, depth - 1, seen)
+                # a generator helper answers through what it yields
+                for y in A.walk_body(h.node):
+                    if isinstance(y, ast.Yield) and y.value is not None and fh.nodes(y):
+                        out |= _guard_deps(ck, fh, y.value, fh.nodes(y)[0], depth - 1, seen)
+    return out
+
+
+def _attempt_guards(fa, targets):
+    """The conditions that decide whether one of `targets` (calls: the write attempt, or a call that leads to it) is
+    evaluated although the function goes on to return normally: [(test expression, cfg node, 'skips when true' /
+    'skips when false')] — branch tests one of whose branches cannot reach any target but reaches the normal
+    exit while the other branch can reach a target, and the tests of conditional expressions / short-circuit
+    operators that enclose a target inside its statement.  Loop tests are left out."""
+    cfg = fa.cfg
+    tnodes = set(fa.nodes_all(targets))
+    out = []
+    if not tnodes:
+        return out
+    live = cfg.reachable_nodes()
+    for n in cfg.nodes:
+        if n.kind != "test" or n.id not in live or n.ast is None or isinstance(fa.pm.get(n.ast), ast.While):
+            continue
+        if n.id in tnodes:
+            continue
+        br = {}
+        for (d, l) in cfg.succ[n.id]:
+            if l in ("T", "F"):
+                br.setdefault(l, []).append(d)
+        if set(br) != {"T", "F"}:
+            continue
+        r = {l: cfg.reach(br[l]) for l in br}
+        for (skip, other) in (("T", "F"), ("F", "T")):
+            if not (r[skip] & tnodes) and cfg.exit in r[skip] and (r[other] & tnodes):
+                out.append((n.ast, n.id, skip == "T"))
+    for t in targets:
+        ids = fa.nodes(t)
+        if not ids:
+            continue
+        ch = t
+        par = fa.pm.get(ch)
+        while par is not None and not isinstance(par, ast.stmt):
+            if isinstance(par, ast.IfExp) and ch is not par.test:
+                out.append((par.test, ids[0], ch is par.orelse))
+            if isinstance(par, ast.BoolOp) and par.values[0] is not ch:
+                for v in par.values[:par.values.index(ch)]:
+                    out.append((v, ids[0], isinstance(par.op, ast.Or)))
+            ch, par = par, fa.pm.get(par)
+    return out
+
+
+def check_attempt_not_remembered(ck):
+    R = "C08.R7"
+    ck.rule(R, "memoization recovers: a computed result is offered to the store unless the STORE says it already has it — "
+               "every condition under which the local runner skips the write and still returns is an answer of the storage "
+               "backend about this call, and none depends on state of the process that outlives the call (a record of "
+               "earlier failures)", 1)
+    host, fas, sites, targets = write_attempt_walk(ck)
+    ck.need(sites, "runner_local.memento_run_local: expected storage_backend.memoize call, found none")
+    want = {"call:" + x for x in STORE_ANSWERS}
+    for q in sorted(targets):
+        fa = fas[q]
+        for (test, at, _when) in _attempt_guards(fa, targets[q]):
+            try:
+                full = fa.expand(test, at)         # a flag local is judged by the atoms of what it was given
+            except Exception:  # noqa - an expression the expander cannot place
+                full = test
+            atoms = _atoms_of(full) if len(_atoms_of(full)) > len(_atoms_of(test)) else _atoms_of(test)
+            for atom in atoms:
+                if isinstance(atom, ast.Constant):
+                    continue
+                deps = _guard_deps(ck, fa, atom, at)
+                if "unknown:" in deps:
+                    from ..loader import AnalysisError
+                    raise AnalysisError("%s: cannot tell what the condition `%s` of the write attempt depends on" % (fa.qual, A.short(atom, 60)))
+                state = sorted(a[7:] for a in deps if a.startswith("global:") and _process_state(fa, a[7:]))
+                if state:
+                    ok, msg = False, ("whether a computed result is written to the store depends on `%s`, state of the process that outlives the "
+                                      "call: once it says 'skip' (e.g. after an I/O error that has long gone away) the result is never offered to "
+                                      "the store again and every later call recomputes, although a write would now succeed" % ", ".join(state))
+                elif not (deps & want):
+                    ok, msg = False, ("the write of a computed result is skipped depending on `%s`, which is not an answer of the store about this "
+                                      "call: a result computed while it holds is returned but never memoized, so later calls recompute "
+                                      "forever" % A.short(atom, 60))
+                else:
+                    ok, msg = True, "the write is skipped only on the store's own answer"
+                ck.ob(R, fa.key(test, "attempt-guard:" + A.norm(atom)[:80]), ok, msg, fa.where(test))
 
 
 def _requires_every(fa, sources):
@@ -1387,3 +1793,4 @@ def check(ck):
     ck.run(check_recovery, ck)
     ck.run(check_readers_validate, ck)
     ck.run(check_complete_or_raise, ck)
+    ck.run(check_attempt_not_remembered, ck)
